@@ -1,6 +1,7 @@
 import PolyVerif.Model.PolyJson
 import PolyVerif.Spec.JsonLossless
 import PolyVerif.Base.JsonRead
+import PolyVerif.Model.PolyJsonViews
 /-
 Driver for C15.  Cases (abstract) → requests (concrete), and the judge.
 
@@ -260,9 +261,16 @@ def uncanon (text : String) : Option Sequence :=
   | some (x, []) => some x
   | _ => none
 
+/-- the harness prints a Go string that is not valid UTF-8 as an `x<byte>.<byte>…` token -/
+def hasInvalidTok (c : String) : Bool :=
+  (c.splitOn " ").any fun t =>
+    match t.toList with
+    | 'x' :: d :: _ => d.isDigit
+    | _ => false
+
 /-! ### domain checks and classification -/
 
-def validCp (c : Nat) : Bool := c ≥ 1 && c < 0x110000 && !(0xD800 ≤ c && c ≤ 0xDFFF)
+def validCp (c : Nat) : Bool := c < 0x110000 && !(0xD800 ≤ c && c ≤ 0xDFFF)
 def validS (s : S) : Bool := s.all validCp
 def int64 (i : Int) : Bool := -9223372036854775808 ≤ i && i ≤ 9223372036854775807
 def validMap (m : SMap) : Bool := (m.getD []).all fun p => validS p.1 && validS p.2
@@ -276,6 +284,18 @@ def locSubsOk : Option (List Location) → Bool
 def locListOk : List Location → Bool
   | [] => true
   | x :: xs => locOk x && locListOk xs
+end
+
+mutual
+/-- no `Start + 1` overflows (the writers' models exclude integer overflow) -/
+def locNoOverflow : Location → Bool
+  | .mk s _ _ _ _ _ subs => s < 9223372036854775807 && locSubsNoOverflow subs
+def locSubsNoOverflow : Option (List Location) → Bool
+  | none => true
+  | some xs => locListNoOverflow xs
+def locListNoOverflow : List Location → Bool
+  | [] => true
+  | x :: xs => locNoOverflow x && locListNoOverflow xs
 end
 
 mutual
@@ -317,13 +337,13 @@ def allStrings (x : Sequence) : List S :=
   [x.description, x.sequenceHash, x.sequenceHashFunction, x.sequence] ++ metaStrings x.metadata
   ++ (x.features.getD []).flatMap featStrings
 
-/-- inside the property's quantifier *and* representable in Go: valid scalar values (no NUL: the
+/-- inside the property's quantifier *and* representable in Go: valid scalar values (NUL included; the
 line protocol's limit), integers in int64, canonical maps -/
 def inDomain (x : Sequence) : Bool :=
   x.WF && (allStrings x).all validS && int64 x.metadata.regionStart && int64 x.metadata.regionEnd
   && int64 x.metadata.size && (x.features.getD []).all (fun f => locOk f.sequenceLocation)
 
-def isAscii (s : S) : Bool := s.all (· < 128)
+def isAscii (s : S) : Bool := asciiS s
 
 def linkedB (x : Sequence) : Bool := (x.features.getD []).all fun f => f.parent == some x.sequence
 
@@ -336,7 +356,8 @@ def classOf (x : Sequence) : String :=
   let hasEmpty := (match x.features with | some [] => true | _ => false) || x.metadata.references == some [] || x.metadata.other == some []
       || fs.any (fun f => f.attributes == some [] || locHasEmpty f.sequenceLocation)
   let triv := fs.isEmpty && (allStrings x).all List.isEmpty
-  (if triv then "triv:" else "") ++ (if fs.isEmpty then "nofeat" else s!"d{depth}") ++ (if nonAscii then "/u" else "")
+  let plain := (allStrings x).all fun t => t.all fun c => 32 ≤ c && c ≤ 126
+  (if triv then "triv:" else "") ++ (if fs.isEmpty then "nofeat" else s!"d{depth}") ++ (if plain then "/plain" else "") ++ (if nonAscii then "/u" else "")
     ++ (if hasNil then "/nil" else "") ++ (if hasEmpty then "/empty" else "") ++ (if linkedB x then "" else "/unlinked")
 
 /-! ### model outputs in the harness's text form -/
@@ -407,7 +428,10 @@ def render (f : List String) : List String :=
     match uncanon c with
     | some x => ["c15dec", toStr (mutate (natOfStr n) (toJ x)).print]
     | none => ["c15bad"]
-  | ["conv", fmt, text] => ["c15conv", fmt, fileText text]
+  | ["conv", fmt, text] => ["c15conv", fmt, "text", fileText text]
+  | ["conv", fmt, text, flags] =>
+    if (flags.splitOn ",").contains "hex" then ["c15conv", fmt, "hex", text]
+    else ["c15conv", fmt, "text", fileText text]
   | _ => ["c15bad"]
 
 def bad (why : String) : Verdict := { corr := false, judge := none, cls := "bad-case", detail := why }
@@ -424,6 +448,9 @@ def judge (f out : List String) : Verdict :=
       let cRt := canon mRt
       -- GetSequence is modelled on ASCII parents (byte = code point, Model/Transform's domain)
       let ascii := isAscii x.sequence
+      -- domain of the writers' models: printable ASCII, no integer overflow in `Start + 1`
+      let plain := ((allStrings x).all fun t => t.all fun c => 32 ≤ c && c ≤ 126)
+        && (x.features.getD []).all (fun f => locNoOverflow f.sequenceLocation)
       let asciiParents := (x.features.getD []).all fun f => isAscii (f.parent.getD [])
       match out with
       | ["ok", jtext, crt, gsx, gsrt, ftext, crd, cfl, gbx, gbrt, gfx, gfrt] =>
@@ -435,7 +462,10 @@ def judge (f out : List String) : Verdict :=
           ("write", sameJ (jsonOf ftext) mJ),
           ("read", crd == cRt),
           ("lean-json", cfl == cRt),
-          ("build", gbx == gbrt && gfx == gfrt)]
+          ("build", gbx == gbrt && gfx == gfrt),
+          -- the writers' views (Model/PolyJsonViews) under the C03 / C14 writer models are what the real writers print
+          ("gbk-view", !plain || gbx == "ok:" ++ String.ofList (GenbankBuild.build x.toGbk {})),
+          ("gff-view", !plain || gfx == "ok:" ++ String.ofList (Gff.build x.toGff))]
         let badCorr := corrParts.filter (!·.2)
         -- the property, on the implementation's outputs only
         let valueOk (c : String) : Bool :=
@@ -467,18 +497,39 @@ def judge (f out : List String) : Verdict :=
       let m := canon (polyjsonParse (mutate (natOfStr n) (toJ x)))
       { corr := out == ["ok", m], judge := none, cls := s!"dec/{(natOfStr n) / 7 % 4}",
         detail := if out == ["ok", m] then "" else m }
-  | ["conv", fmt, _] =>
+  | "conv" :: fmt :: _ :: rest =>
+    -- `strict`: the file is a plain well-formed one that the parser and the direct writer must accept
+    let strict := match rest with
+      | [flags] => (flags.splitOn ",").contains "strict"
+      | _ => false
+    let pre := "conv/" ++ fmt ++ "/"
+    let skipOr (why : String) : Verdict :=
+      if strict then { corr := false, judge := some false, cls := pre ++ why,
+                       detail := "a plain well-formed generated file was not converted: " ++ why }
+      else { corr := true, judge := none, cls := pre ++ "skip:" ++ why, detail := "" }
     match out with
-    | ["ok", cp, jtext, crt, direct, via, gsp, gsrt, viaFile, viaPipe] =>
-      match uncanon cp with
-      | none => { corr := true, judge := none, cls := "conv/" ++ fmt ++ "/parser-output-not-utf8", detail := "" }
+    | ["ok", st] => skipOr ("parser-" ++ st.drop 1)          -- the parser panicked on the generated file
+    | ["ok", "ok", cp, direct, jtext, crt, via, gsp, gsrt, viaFile, viaPipe] =>
+      if cp.startsWith "!" then skipOr "parser-output-unprintable"
+      else if hasInvalidTok cp then
+        -- NAMED EXCLUSION: a Go string that is not valid UTF-8 (e.g. a Latin-1 byte passed through by the
+        -- parsers) is outside "non-ASCII text": encoding/json replaces such bytes by U+FFFD by design
+        { corr := true, judge := none, cls := pre ++ "skip:invalid-utf8", detail := "" }
+      else match uncanon cp with
+      | none =>
+        { corr := false, judge := some false, cls := pre ++ "canon-unreadable",
+          detail := "the parser's value has a shape the model does not know (struct changed?)" }
       | some x =>
+        if direct.startsWith "!" then skipOr ("direct-build-" ++ direct.drop 1)
+        else
         let mJ := toJ x
         let cRt := canon (polyjsonParse mJ)
         let corrParts : List (String × Bool) := [
           ("marshal", sameJ (jsonOf jtext) mJ), ("parse", crt == cRt),
           ("build", direct == via && direct == viaFile && direct == viaPipe)]
         let badCorr := corrParts.filter (!·.2)
+        -- from here on every step ran on a value the direct writer accepted: a step that failed
+        -- ("!panic" / "!err") differs from `direct` and fails the property
         let specParts : List (String × Bool) := [
           ("same text via Marshal/Parse", direct == via),
           ("same text via Write/Read", direct == viaFile),
@@ -486,16 +537,18 @@ def judge (f out : List String) : Verdict :=
           ("value", match uncanon crt with
                     | some r => Spec.Lossless.sameSeq r x && Spec.Lossless.relinkedOK r
                     | none => false),
-          ("features report the same sequence", gsp == gsrt)]
+          ("features report the same sequence", !gsp.startsWith "!" && gsp == gsrt)]
         let badSpec := specParts.filter (!·.2)
         { corr := badCorr.isEmpty, judge := if inDomain x then some badSpec.isEmpty else none,
-          cls := "conv/" ++ fmt ++ "/" ++ classOf x,
+          cls := pre ++ classOf x,
           detail := (if badCorr.isEmpty then "" else "model differs at: " ++ ", ".intercalate (badCorr.map (·.1))
                       ++ "; model json " ++ toStr mJ.print ++ "; model parse " ++ cRt)
                     ++ (if badSpec.isEmpty then "" else " property fails at: " ++ "; ".intercalate (badSpec.map (·.1))) }
     | _ =>
-      -- the parser (or a writer) failed on this file: not a statement about JSON
-      { corr := true, judge := none, cls := "conv/" ++ fmt ++ "/parser-" ++ (out.head?.getD "none"), detail := "" }
+      -- the harness process panicked outside the guarded steps, returned an error, crashed, timed out
+      -- or was stopped by the race detector: nothing shows the conversion worked
+      { corr := false, judge := some false, cls := pre ++ "op-" ++ (out.head?.getD "none"),
+        detail := "no usable reply: " ++ (out.head?.getD "none") }
   | _ => bad "bad case"
 
 def driver : PropDriver := { render, judge }
